@@ -11,8 +11,30 @@ thread_local! {
     static MAXREQ: Cell<usize> = const { Cell::new(0) };
 }
 
+thread_local! {
+    static IN_REPORT: Cell<bool> = const { Cell::new(false) };
+}
+
+/// A request this large ends in an abort of the whole process (no unwinding, no message beyond the size): say where it comes
+/// from first, so that the crash report names the code that asked.
+#[cold]
+fn report_huge(size: usize) {
+    let _ = IN_REPORT.try_with(|f| {
+        if !f.get() {
+            f.set(true);
+            let bt = std::backtrace::Backtrace::force_capture().to_string();
+            let frames: Vec<&str> = bt.lines().filter(|l| l.contains("gamedig") || l.contains("vh::")).take(12).collect();
+            eprintln!("HUGE-ALLOCATION {size} bytes requested by:\n{}", frames.join("\n"));
+            f.set(false);
+        }
+    });
+}
+
 #[inline]
 fn on_alloc(size: usize) {
+    if size > (1usize << 32) {
+        report_huge(size);
+    }
     let _ = LIVE.try_with(|l| {
         let v = l.get() + size as isize;
         l.set(v);
